@@ -23,6 +23,7 @@ package c03
 
 import (
 	"math/rand"
+	"time"
 
 	"verif/mon"
 	"verif/props/reg"
@@ -86,6 +87,11 @@ func pattern(pd, ps, pm int) []byte {
 	return out
 }
 
+// one sample per case kind and process (the parent keeps the first three)
+var sampled = map[string]bool{}
+
+func wantSample(r *mon.Report, kind string) bool { return !sampled[kind] && r.WantSample() }
+
 func cases(tier string) int {
 	d, s, m := sizes(tier)
 	return d + s + m
@@ -93,6 +99,8 @@ func cases(tier string) int {
 
 func run(r *mon.Report, tier string, idx int, rng *rand.Rand) {
 	kind, ord := kindOf(tier, idx)
+	t0 := time.Now() // evidence only (cost per case kind); no oracle reads the wall clock
+	defer func() { r.Count(kind+"_wall_ms", int(time.Since(t0).Milliseconds())) }()
 	switch kind {
 	case "dynamic":
 		runDynamic(r, tier, idx, ord, rng)
